@@ -242,6 +242,10 @@ func runC19(c *fw.Ctx, id string, rq c19Req) {
 	if rq.e2eOnly {
 		params.TracerouteQueries, params.E2eQueries = 0, 1
 	}
+	if (rq.minTTL+rq.maxTTL+rq.port)%3 == 0 {
+		params.Delay = 0 // the zero value a library caller gets when it does not set a pause between probes
+		c.Count("requests_with_zero_delay", 1)
+	}
 	env, err := newReqEnv(c, params, addr, 0, false)
 	if err != nil {
 		c.Inconclusive(err.Error())
